@@ -326,3 +326,82 @@ func crossIndexWrong(a, b []uint32) bool {
 	}
 	return true
 }
+
+// G3D: the carry decides when to stop, not the index.
+func carryDown(iv []byte, carry int) {
+	for i := len(iv) - 1; carry > 0; i-- {
+		sum := int(iv[i]) + carry
+		iv[i] = byte(sum)
+		carry = sum >> 8
+	}
+}
+
+// G-OVF: the sum wraps for n near the maximum.
+type sumReader struct {
+	buf []byte
+	pos int
+}
+
+func (s *sumReader) take(n int) []byte {
+	if n < 0 {
+		return nil
+	}
+	end := s.pos + n
+	if end > len(s.buf) {
+		return nil
+	}
+	res := s.buf[s.pos:end]
+	s.pos = end
+	return res
+}
+
+// TakeFromHeader hands take a 64-bit size read from the data.
+func TakeFromHeader(s *sumReader, hdr []byte) []byte {
+	return s.take(int(binary.BigEndian.Uint64(hdr)))
+}
+
+// L-NEGCONV: wraps for samples shorter than 4 bytes.
+func lastStartWrong(sample []byte) int {
+	n := 0
+	length := len(sample)
+	lastStart := uint64(length - 4)
+	for pos := uint64(0); pos < lastStart; pos += 4 {
+		n++
+	}
+	return n
+}
+
+// L-COPYMUT: the pointer-receiver method changes a copy of the field.
+type naluRec struct {
+	arrays []int
+}
+
+func (r *naluRec) Add(v int) {
+	r.arrays = append(r.arrays, v)
+}
+
+type recHolder struct {
+	Rec naluRec
+}
+
+func copyMutated(h *recHolder, v int) {
+	rec := h.Rec
+	rec.Add(v)
+}
+
+// L-DEADFIELD: the non-sync bit computed first is thrown away by the struct literal.
+type sampleFlagsT struct {
+	NonSync bool
+	Leading byte
+}
+
+func structOverwrite(sync bool, lead byte) sampleFlagsT {
+	var f sampleFlagsT
+	if !sync {
+		f.NonSync = true
+	}
+	if lead > 0 {
+		f = sampleFlagsT{Leading: lead}
+	}
+	return f
+}
